@@ -31,12 +31,19 @@ type driver interface {
 }
 
 type tableKind struct {
-	open      func(dir string, freshEpoch uint64, queued bool) driver
+	open      func(dir string, freshEpoch uint64, queued, recording bool) driver
 	validate  func(partDir string) error
 	reference func(n int, extra bool) string // content of batches 1..n (+ the post-recovery batch)
 	partName  func(id uint64) string
 	snapName  func(epoch uint64) string
+	allowed   map[string]bool // further legitimate entries of the shard directory ("sidx/", ...)
 	name      string
+}
+
+// checker is implemented by drivers with kind-specific consistency checks; phase is "open" (right after recovery) or
+// "post" (after the post-recovery write+flush+gc+reopen).
+type checker interface {
+	Check(phase string) []string
 }
 
 var tableKinds = map[string]*tableKind{}
@@ -91,7 +98,7 @@ func recordTable(h *history, k *tableKind, scratch string) *recording {
 			vos.VerifMark(fmt.Sprintf("begin:%d:%s", i, s))
 			switch s {
 			case "init":
-				t = k.open(dir, historyBase, h.Queued)
+				t = k.open(dir, historyBase, h.Queued, true)
 			case "w":
 				nBatch++
 				t.Write(nBatch)
@@ -162,7 +169,7 @@ func recoverTable(k *tableKind, tree *crashfs.Tree, scratch string) *observation
 		}
 	}
 	var t driver
-	if ob.Panic = guard(func() { t = k.open(dir, recoverBase, false) }); ob.Panic != "" {
+	if ob.Panic = guard(func() { t = k.open(dir, recoverBase, false, false) }); ob.Panic != "" {
 		ob.Shape = "recovery panicked"
 		ob.Problems = append(ob.Problems, "recovery panic: "+ob.Panic)
 		return ob
@@ -211,6 +218,7 @@ func recoverTable(k *tableKind, tree *crashfs.Tree, scratch string) *observation
 		afterSet[n] = true
 		base := strings.TrimSuffix(n, "/")
 		switch {
+		case k.allowed[n]:
 		case strings.HasSuffix(n, "/") && hex16.MatchString(base):
 			if !served[base] {
 				ob.Problems = append(ob.Problems, "leftover: part directory not referenced by the live snapshot survives recovery")
@@ -278,6 +286,12 @@ func recoverTable(k *tableKind, tree *crashfs.Tree, scratch string) *observation
 	} else if len(served) > 0 {
 		ob.Problems = append(ob.Problems, "parts served without a live manifest")
 	}
+	openClean := true
+	if c, ok := t.(checker); ok {
+		pr := c.Check("open")
+		openClean = len(pr) == 0
+		ob.Problems = append(ob.Problems, pr...)
+	}
 	sort.Strings(ob.Served)
 	switch {
 	case len(ob.Removed) > 0 && ob.LoadedEpoch != 0 && ob.LoadedEpoch < newestSnp:
@@ -305,11 +319,16 @@ func recoverTable(k *tableKind, tree *crashfs.Tree, scratch string) *observation
 			}
 			t.Close()
 			t = nil
-			t2 := k.open(dir, recoverBase+0x1000, false)
+			t2 := k.open(dir, recoverBase+0x1000, false, false)
 			defer t2.Close()
 			r3, _, e3 := t2.Content()
 			if e3 != nil || r3 != want {
 				panic(fmt.Sprintf("content after reopening the recovered table is wrong (%v)", e3))
+			}
+			if c, ok := t2.(checker); ok && openClean {
+				if pr := c.Check("post"); len(pr) > 0 {
+					panic(pr[0])
+				}
 			}
 		})
 		if ob.Post != "" {
